@@ -145,7 +145,11 @@ fn make_failing(rng: &mut Rng, spec: &Spec, kind: &str, chain: &[(u64, bool)]) -
             let e = **rng.pick(&c);
             let depth = rng.urange(1, 3);
             let it = build_bad_full(rng, spec, e, &ids, depth)?;
-            let opt = if rng.chance(1, 4) { SizeOpt::Width(rng.urange(2, 8)) } else { SizeOpt::Default };
+            let opt = match rng.below(8) {
+                0 | 1 => SizeOpt::Width(rng.urange(2, 8)),
+                2 => SizeOpt::Unknown,
+                _ => SizeOpt::Default,
+            };
             Some(vec![WCall::Write(it, opt)])
         }
         "several-in-a-row" => {
